@@ -317,9 +317,22 @@ def make_body(spec, falsify=False):
 
     def body(inp):
         nl = count_lits(cmds)
-        lits = [inp.int(f"lit{j}") for j in range(nl)]
+        # as in C04: in programs of several commands the MODULUS of addm / subm (a literal or the initial value of a register) is kept
+        # in -1..3, which keeps the symbolic modulus out of non-linear territory inside loops (all four fault / no-fault cases remain);
+        # a command alone keeps the full range
+        real_cmds = [c for c in cmds if c[0] != "L"]
+        small_l, small_r = set(), set()
+        if len(real_cmds) > 1:
+            for c in real_cmds:
+                if c[0] in ("addm", "subm") and len(c) > 4:
+                    m = c[4]
+                    if m[0] == "k":
+                        small_l.add(m[1])
+                    elif m[0] == "r":
+                        small_r.add(m[1])
+        lits = [inp.int(f"lit{j}", -1, 3) if j in small_l else inp.int(f"lit{j}") for j in range(nl)]
         named = named_registers(cmds)
-        init = {r: inp.int(f"init_{r}") for r in sorted(named)}
+        init = {r: (inp.int(f"init_{r}", -1, 3) if r in small_r else inp.int(f"init_{r}")) for r in sorted(named)}
         arr0 = [inp.int("arr0_0"), inp.int("arr0_1")]
         site = {"route": route, "shape": "+".join(c[0] for c in cmds)[:80]}
 
@@ -564,7 +577,7 @@ def main(tier, seed):
                   "forward and backward jumps; register-pressure programs naming 14-16 R registers; an aliasing program; each through the IR route and "
                   "through text with macros / comments / bracketed arguments",
                   "all literal values, initial register and array contents symbolic; step bound 14 (source) / 60 (assembled); straight-line register-pressure programs: 30 / 100"]
-    rep.outside = ["programs longer than 3 commands (plus the register-pressure programs)", "macro names overlapping in other ways than 'defined-later name is a prefix of an earlier one' (str.replace substitution in definition order)",
+    rep.outside = ["programs longer than 3 commands (plus the register-pressure programs)", "in programs of several commands: moduli of addm / subm outside -1..3", "macro names overlapping in other ways than 'defined-later name is a prefix of an earlier one' (str.replace substitution in definition order)",
                    "quantum gate instructions (they take no literals except the immediates covered by C17)", "token-level lemmas on arbitrary strings (C17 covers printed text)"]
     rep.stubs = ["reference semantics vf/refsem.py on both sides", "text route: literals are printed as placeholder numerals 7000+j and replaced by the symbolic value after parsing"]
     chunks = [specs[i::64] for i in range(64)]
